@@ -192,7 +192,7 @@ def split_hist(outlines):
     return hs
 
 
-def run_histories(cmd, hists, jobs=vlib.NCPU, env=None):
+def run_histories(cmd, hists, jobs=vlib.NCPU, env=None, fork_cmd=None):
     """run many histories through a driver in parallel shards; returns the transcript per history"""
     if not hists:
         return []
@@ -205,6 +205,10 @@ def run_histories(cmd, hists, jobs=vlib.NCPU, env=None):
             body += hist_lines(h)
         rc, out, err = run_tool(cmd, body, env=env)
         res = split_hist(out)
+        if (rc != 0 or len(res) != len(sh)) and fork_cmd is not None:
+            # the process died inside a history: run every history in its own child process
+            rc, out, err = run_tool(fork_cmd, body, env=env)
+            res = split_hist(out)
         if len(res) != len(sh):
             raise RuntimeError("%s: %d transcripts for %d histories (rc=%d) %s" % (cmd[0], len(res), len(sh), rc, err[-500:]))
         return res
@@ -480,10 +484,19 @@ def main():
         ck.broken_obligation("extracted model driver extract/_build/c12 missing (make setup)", "")
         ck.finish()
     asan_env = dict(os.environ, ASAN_OPTIONS="detect_leaks=0:exitcode=97:abort_on_error=0")
-    IMPL = [rt, "fork"]
+    IMPL = [rt]
+    IMPL_FORK = [rt, "fork"]
     MODEL = [model]
     stats = dict(scalars=0, sequences=0, histories_exhaustive=0, histories_random=0, histories_asan=0, programs=0, operations=0,
                  model_oob_or_stuck=0, known_defect_histories=0, op_kinds={})
+    import time
+    tlast = [time.time()]
+
+    def lap(name):
+        now = time.time()
+        log("[c12] %-28s %6.1fs" % (name, now - tlast[0]))
+        stats.setdefault("seconds", {})[name] = round(now - tlast[0], 1)
+        tlast[0] = now
     model_mismatch = []      # (what, detail) where implementation satisfied the spec but differs from the model
     py_vs_cps = []
 
@@ -515,12 +528,16 @@ def main():
         return True
 
     def impl_one(h):
-        return split_hist(run_tool(IMPL, hist_lines(h))[1])[0]
+        rc, out, _ = run_tool(IMPL, hist_lines(h))
+        if rc != 0:
+            out = run_tool(IMPL_FORK, hist_lines(h))[1]
+        return split_hist(out)[0]
 
     def violates(h):
         return judge(h, impl_one(h)) is not None
 
     def shrink(h):
+        """greedy: drop operations, then drop characters of literals, then lower indices"""
         cur = list(h)
         changed = True
         while changed:
@@ -530,6 +547,26 @@ def main():
                 if cand and violates(cand):
                     cur, changed = cand, True
                     break
+        budget = 60
+        changed = True
+        while changed and budget > 0:
+            changed = False
+            for i, op in enumerate(cur):
+                cands = []
+                if op[0] == "L":
+                    cands = [("L", op[1], op[2][:k] + op[2][k + 1:]) for k in range(len(op[2]))]
+                elif op[0] in ("I", "R", "X"):
+                    for pos in ({"I": [2], "R": [3], "X": [3, 4]}[op[0]]):
+                        if op[pos] > 1:
+                            cands.append(tuple(list(op[:pos]) + [op[pos] - 1] + list(op[pos + 1:])))
+                for c in cands:
+                    budget -= 1
+                    cand = cur[:i] + [c] + cur[i + 1:]
+                    if violates(cand):
+                        cur, changed = cand, True
+                        break
+                if changed or budget <= 0:
+                    break
         return cur
 
     shrunk_budget = [12]
@@ -537,6 +574,9 @@ def main():
     def report(h, impl, verdict, leg):
         """the implementation contradicts the specification on history h"""
         n, what = verdict
+        stats["contradictions"] = stats.get("contradictions", 0) + 1
+        if len(ck.violations) >= 6:
+            return            # enough minimised replays; further contradictions are only counted
         if shrinking_replaces(h):
             # attribution: the same history with the register re-sliced (freshly allocated) after every
             # replacement by a shorter character
@@ -573,7 +613,7 @@ def main():
                 fh.write("\n".join(hist_lines(small)) + "\n")
 
     def process(hists, leg):
-        impl = run_histories(IMPL, hists)
+        impl = run_histories(IMPL, hists, fork_cmd=IMPL_FORK)
         mod = run_histories(MODEL, hists)
         for h, i, m in zip(hists, impl, mod):
             ck.count(len(i))
@@ -619,6 +659,7 @@ def main():
         ck.sample(dict(leg="corpus", history=hist_lines(corpus[0]), implementation=ci[0], model=cm[0]))
     stats["corpus_histories"] = len(corpus)
 
+    lap("build+coq+corpus")
     # 1. every ddpchar value -2 .. 0x110010: char_to_string, num_bytes_char, num_bytes, string_to_char, casts --------
     LO, HI = -2, 0x110010
     nsh = 16
@@ -652,6 +693,7 @@ def main():
                 model_mismatch.append(("scalar", dict(input="U %d %d" % (c, c), implementation=a, model=m)))
     ck.count(stats["scalars"])
 
+    lap("scalars")
     # 2. decoder on every lead + continuation sequence ---------------------------------------------------------------
     seqs = ["D %d 2 1 255" % lead for lead in range(0x80, 0x100)] + ["D %d 3 128 191" % lead for lead in range(0xE0, 0xF0)]
     seqs += ["D %d 3 %d %d" % (lead, 0x7E, 0x81) for lead in range(0xE0, 0xF0)] + ["D %d 3 %d %d" % (lead, 0xBE, 0xC1) for lead in range(0xE0, 0xF0)]
@@ -705,12 +747,14 @@ def main():
         if a != m and len(model_mismatch) < 5:
             model_mismatch.append(("cast", dict(input="Z %d" % z, implementation=a, model=m)))
 
+    lap("decoder+casts")
     # 3. all short texts x all operations x all indices ------------------------------------------------------------------
     exh = exhaustive_histories()
     stats["histories_exhaustive"] = len(exh)
     ei, em = process(exh, "exhaustive")
     ck.sample(dict(leg="exhaustive", history=hist_lines(exh[len(exh) // 3]), implementation=ei[len(exh) // 3], model=em[len(exh) // 3]))
 
+    lap("exhaustive short texts")
     # 4. random histories ---------------------------------------------------------------------------------------------------
     nrand = 5000 if ck.quick else 100000
     rnd = [rand_history(ck.rng) for _ in range(nrand)]
@@ -726,11 +770,35 @@ def main():
     stats["random_replacements"] = prod
     stats["random_history_length_hist"] = {str(n): sum(1 for h in rnd if len(h) == n) for n in range(1, 13)}
 
+    lap("random histories")
     # 5. ASan flavour on a sample: over-reads the native build cannot show ----------------------------------------------------
     nas = 400 if ck.quick else 4000
     sample = corpus + exh[::max(1, len(exh) // (nas // 2))] + rnd[:nas // 2]
     stats["histories_asan"] = len(sample)
-    ai = run_histories([rta, "fork"], sample, env=asan_env)
+    def asan_run(hs):
+        """in-process under ASan; the process dies at the first report, the rest is resumed in a new one"""
+        out, pending = [], list(hs)
+        while pending:
+            body = []
+            for h in pending:
+                body += hist_lines(h)
+            rc, lines, err = run_tool([rta, "flush"], body, env=asan_env)
+            res = split_hist(lines)
+            if rc == 0 and len(res) == len(pending):
+                out += res
+                break
+            if not res:
+                raise RuntimeError("rtdrive_asan produced nothing (rc=%d): %s" % (rc, err[-300:]))
+            res[-1].append("!exit %d" % rc)
+            out += res
+            pending = pending[len(res):]
+        return out
+    shards = [sample[i::8] for i in range(8)]
+    parts = vlib.pmap(asan_run, shards, jobs=8)
+    ai = [None] * len(sample)
+    for k, part in enumerate(parts):
+        for j, r in enumerate(part):
+            ai[k + j * 8] = r
     am = run_histories(MODEL, sample)
     asan_reports = 0
     for h, i, m in zip(sample, ai, am):
@@ -744,14 +812,14 @@ def main():
             if not predicted:
                 if shrinking_replaces(h):
                     hh = heal(h)
-                    o = split_hist(run_tool([rta, "fork"], hist_lines(hh), env=asan_env)[1])[0]
-                    if not any(l.startswith("!") for l in o):
+                    if run_tool([rta, "flush"], hist_lines(hh), env=asan_env)[0] == 0:
                         continue
                 if len(model_mismatch) < 5:
                     model_mismatch.append(("asan", dict(history=hist_lines(h), implementation=i, model=m,
                                                         what="sanitizer report / crash at a step where the model predicts a defined result")))
     stats["asan_reports"] = asan_reports
 
+    lap("asan sample")
     # 6. compiled programs ----------------------------------------------------------------------------------------------------------
     progs = list(FIXED_PROGRAMS)
     want_n = 10 if ck.quick else 60
@@ -806,6 +874,7 @@ def main():
                                              expected_exit=wrc, stdout=out[:2000].decode("utf-8", "replace"), exit=rc))
     ck.sample(dict(leg="program", source=ddp_program(progs[0]), expected=ddp_expected(progs[0])[0].decode("utf-8", "replace")))
 
+    lap("compiled programs")
     # ---- triage of model / implementation disagreements -----------------------------------------------------------------------
     if py_vs_cps:
         ck.broken_obligation("the Python decoder of the oracle and the Coq abstraction cps disagree on a model state: %s" % (py_vs_cps[0],), "")
